@@ -310,12 +310,21 @@ func c04Check(s *chansim.Sim, r *c04Revoked, st *c04Stats) error {
 // c04Classify feeds the revoked transaction through the chain watcher's own
 // classifier and requires a breach hand-off for that height. It marks the
 // channel borked in the database, so it runs last.
-func c04Classify(s *chansim.Sim, r *c04Revoked) error {
+//
+// staleHandle: the watcher works on the channel handle that was loaded when the
+// channel was created and never refreshed since (lnd's chain watcher keeps the
+// handle it got at start-up for its whole life and relies on newChainSet to
+// re-read commitments and the revocation store from disk); otherwise on a
+// handle fetched right now. Added after seeded change C04d.
+func c04Classify(s *chansim.Sim, r *c04Revoked, staleHandle bool) error {
 	x := r.victim
 	side := s.Sides[x]
 	state, err := side.FetchState()
 	if err != nil {
 		return err
+	}
+	if staleHandle && side.Stale != nil {
+		state = side.Stale
 	}
 	var handed *lnwallet.BreachRetribution
 	cw := &chainWatcher{
@@ -435,7 +444,14 @@ func TestVerifC04Breach(t *testing.T) {
 					continue
 				}
 				r := mine[rapid.IntRange(0, len(mine)-1).Draw(t, "classify")]
-				err = c04Classify(s, r)
+				stale := rapid.Bool().Draw(t, "watcherHandleFromStartup")
+				if stale {
+					if s.Labels == nil {
+						s.Labels = map[string]bool{}
+					}
+					s.Labels["classify_with_startup_handle"] = true
+				}
+				err = c04Classify(s, r, stale)
 			}
 		}
 		if err != nil {
